@@ -1,8 +1,8 @@
 """C02 - B-tree set/map always equals the abstract sorted (multi)sequence.
 proof: Coq theorems about a hand-written executable model of TreeSet.h (coq/BTreeModel.v) whose split index and
        leaf-capacity arithmetic are regenerated from the headers (T-gen: Gen_TreeNode.v, Gen_Node.v);
-tie:   T-cor - the extracted model and the real TreeSet/TreeMap run the same op histories on 32 node/traits/item
-       configurations; per op the index of every returned iterator, bounds/find/count on probe keys, forward and
+tie:   T-cor - the extracted model and the real TreeSet/TreeMap run the same op histories on 48 node/traits/item/crew/
+       memory-manager configurations (each static_asserted to instantiate the intended classes); per op the index of every returned iterator, bounds/find/count on probe keys, forward and
        backward traversals, GetCount and the pre-order shape (leaf?/count/capacity) must be identical;
 oracle: a stable sorted std::vector twin inside the harness (independent of the model), structural checks of the real
        nodes (parent links, uniform depth, count <= capacity) and a counting memory manager (no leak after merges)."""
@@ -10,34 +10,79 @@ import os
 
 GEN = ['gen_treenode.json', 'gen_node.json']
 
-#        id: (maxCap, step, blockCount, lin, multi, key, map)
+#   id: (maxCap, step, blockCount, lin, multi, key, value(''=set), real layout, crew, checkVersion, memory manager, traits)
+#   key kinds: int = trivially relocatable; str = nothrow move, not trivially relocatable (short keys inside the SSO buffer,
+#   long ones on the heap); move = heap-owning with a move constructor not marked noexcept (momo treats it as nothrow-
+#   relocatable); heap = heap-owning COPY-ONLY (not nothrow-relocatable, not nothrow-shiftable: the library forces the indexed
+#   layout); swap = copy-only with a nothrow ADL swap (not nothrow-relocatable but shiftable by swapping: continuous layout).
+#   The harness static_asserts every column on the instantiated classes and prints them back (stage config-facts).
+def _c(mc, st, bc, lin, multi, key, val='', layout='C', crew='ptr', ver=1, mm='empty', traits='TreeTraits'):
+    return (mc, st, bc, lin, multi, key, val, layout, crew, ver, mm, traits)
 CONFIGS = {
-    0: (1, 0, 8, 1, 0, 'int', 0), 1: (1, 1, 1, 0, 1, 'int', 1), 2: (2, 0, 1, 0, 1, 'str', 0), 3: (2, 1, 8, 1, 0, 'int', 1),
-    4: (2, 2, 8, 0, 1, 'heap', 0), 5: (3, 1, 8, 1, 1, 'int', 0), 6: (3, 2, 1, 0, 0, 'str', 1), 7: (3, 100, 8, 0, 0, 'int', 0),
-    8: (4, 0, 8, 1, 1, 'int', 1), 9: (4, 1, 1, 0, 0, 'heap', 0), 10: (4, 2, 8, 1, 0, 'int', 0), 11: (4, 100, 1, 1, 1, 'str', 0),
-    12: (5, 1, 8, 0, 0, 'int', 0), 13: (5, 2, 1, 1, 1, 'int', 1), 14: (5, 0, 8, 0, 1, 'heap', 1), 15: (5, 100, 1, 1, 0, 'int', 0),
-    16: (8, 1, 8, 1, 0, 'int', 0), 17: (8, 2, 1, 0, 1, 'int', 0), 18: (8, 0, 1, 1, 0, 'str', 1), 19: (8, 100, 8, 0, 1, 'int', 1),
-    20: (32, 4, 8, 1, 0, 'int', 0), 21: (32, 1, 1, 0, 1, 'int', 1), 22: (32, 2, 8, 0, 0, 'heap', 0), 23: (32, 0, 1, 1, 1, 'int', 0),
-    24: (255, 100, 1, 1, 0, 'int', 0), 25: (255, 1, 8, 0, 1, 'int', 1), 26: (255, 0, 1, 0, 0, 'int', 0), 27: (255, 2, 8, 1, 1, 'str', 0),
-    28: (3, 0, 8, 0, 1, 'int', 0), 29: (4, 1, 8, 0, 1, 'int', 1), 30: (2, 100, 1, 1, 0, 'int', 0), 31: (1, 2, 8, 0, 0, 'heap', 1),
+    0: _c(1, 0, 8, 1, 0, 'int'), 1: _c(1, 1, 1, 0, 1, 'int', 'long', 'I'), 2: _c(2, 0, 1, 0, 1, 'str'), 3: _c(2, 1, 8, 1, 0, 'int', 'long', 'I'),
+    4: _c(2, 2, 8, 0, 1, 'heap', '', 'I'), 5: _c(3, 1, 8, 1, 1, 'int'), 6: _c(3, 2, 1, 0, 0, 'str', 'long', 'I'), 7: _c(3, 100, 8, 0, 0, 'int'),
+    8: _c(4, 0, 8, 1, 1, 'int', 'long', 'I'), 9: _c(4, 1, 1, 0, 0, 'heap', '', 'I'), 10: _c(4, 2, 8, 1, 0, 'int'), 11: _c(4, 100, 1, 1, 1, 'str'),
+    12: _c(5, 1, 8, 0, 0, 'int'), 13: _c(5, 2, 1, 1, 1, 'int', 'long'), 14: _c(5, 0, 8, 0, 1, 'heap', 'long', 'I'), 15: _c(5, 100, 1, 1, 0, 'int', '', 'I'),
+    16: _c(8, 1, 8, 1, 0, 'int'), 17: _c(8, 2, 1, 0, 1, 'int'), 18: _c(8, 0, 1, 1, 0, 'str', 'long', 'I'), 19: _c(8, 100, 8, 0, 1, 'int', 'long'),
+    20: _c(32, 4, 8, 1, 0, 'int'), 21: _c(32, 1, 1, 0, 1, 'int', 'long', 'I'), 22: _c(32, 2, 8, 0, 0, 'move'), 23: _c(32, 0, 1, 1, 1, 'int'),
+    24: _c(255, 100, 1, 1, 0, 'int'), 25: _c(255, 1, 8, 0, 1, 'int', 'long', 'I'), 26: _c(255, 0, 1, 0, 0, 'int'), 27: _c(255, 2, 8, 1, 1, 'str'),
+    28: _c(3, 0, 8, 0, 1, 'int'), 29: _c(4, 1, 8, 0, 1, 'int', 'long'), 30: _c(2, 100, 1, 1, 0, 'int'), 31: _c(1, 2, 8, 0, 0, 'heap', 'long', 'I'),
+    # audit round
+    32: _c(32, 4, 8, 1, 0, 'int', crew='inline', ver=0), 33: _c(4, 2, 8, 0, 1, 'int', 'long', crew='inline', ver=0),
+    34: _c(3, 1, 8, 0, 1, 'swap'), 35: _c(8, 2, 1, 0, 0, 'swap', 'long', crew='inline', ver=0),
+    36: _c(4, 1, 8, 1, 1, 'int', 'heap', 'I'), 37: _c(5, 2, 8, 0, 0, 'str', 'str', crew='inline', ver=0),
+    38: _c(4, 2, 8, 1, 0, 'int', mm='stateful-unequal'), 39: _c(2, 1, 1, 0, 1, 'int', 'long', ver=0, mm='stateful-unequal'),
+    40: _c(4, 1, 8, 0, 1, 'int', traits='TreeTraitsStd<stateful less>'), 41: _c(3, 0, 1, 0, 0, 'str', crew='inline', ver=0, traits='TreeTraitsStd<std::less>'),
+    42: _c(254, 127, 127, 1, 0, 'int'), 43: _c(255, 255, 2, 0, 1, 'int', crew='inline', ver=0),
+    44: _c(255, 254, 1, 1, 0, 'int', 'str', 'I'), 45: _c(16, 2, 8, 1, 0, 'int', ver=0, mm='stateful-equal'),
+    46: _c(64, 8, 1, 0, 1, 'str', 'long', mm='stateful-equal'), 47: _c(255, 1, 1, 0, 0, 'heap', '', 'I'),
 }
-NTU = 4
+NTU = 8
+PER_TU = 6
+# C02_ONLY_TUS=0,5 restricts a run to the configurations of those harness translation units.  Used ONLY to re-confirm mutants
+# cheaply on a loaded machine: whatever a subset of the configurations catches, the full check (a superset of cases) catches too.
+_only = os.environ.get('C02_ONLY_TUS', '')
+TUS = sorted(int(x) for x in _only.split(',') if x.strip() != '') if _only.strip() else list(range(NTU))
+def active():
+    return [cid for cid in sorted(CONFIGS) if cid // PER_TU in TUS]
+KEYFACTS = {'int': (1, 1, 1), 'str': (0, 1, 1), 'move': (0, 1, 0), 'heap': (0, 0, 0), 'swap': (0, 0, 1)}   # trivially reloc, nothrow reloc, nothrow swap
+
+def merge_modelled(cid):
+    """the model's MergeTo follows the equal-memory-manager / empty-traits path selection"""
+    return CONFIGS[cid][10] != 'stateful-unequal' and CONFIGS[cid][11] == 'TreeTraits'
+
+def expected_facts(cid):
+    mc, st, bc, lin, multi, key, val, layout, crew, ver, mm, traits = CONFIGS[cid]
+    kt, kr, ks = KEYFACTS[key]
+    return {'layout': layout, 'crew': crew, 'keyTriv': str(kt), 'keyNothrowReloc': str(kr), 'keyNothrowSwap': str(ks), 'lin': str(lin), 'multi': str(multi),
+            'checkVersion': str(ver), 'emptyMM': str(int(mm == 'empty')), 'emptyTraits': str(int(traits == 'TreeTraits')), 'map': str(int(val != ''))}
+
+DIST = {}
+def dist(k, n=1):
+    DIST[k] = DIST.get(k, 0) + n
+
+import re as _re
+def line(cid, ops):
+    """one case line; keys are C++ ints: anything a generator pushed beyond INT_MAX (extreme key + offset) is clamped"""
+    return head(cid) + ' ' + _re.sub(r'\d{10,}', lambda m: str(min(int(m.group(0)), 2147483647)), ' '.join(ops))
 
 def head(cid):
-    mc, st, bc, lin, multi, _, _ = CONFIGS[cid]
+    mc, st, bc, lin, multi = CONFIGS[cid][:5]
     return '%d %d %d %d %d %d' % (cid, mc, st, bc, lin, multi)
 
 def gen_history(r, cid, nops, modelled_only):
     """one aimed op history for configuration cid"""
-    mc, st, bc, lin, multi, _, _ = CONFIGS[cid]
+    mc, st, bc, lin, multi = CONFIGS[cid][:5]
     ops = []
     size = [0, 0]                      # rough size estimate (exact bookkeeping is the harness's job)
     style = r.below(8)
+    dist('keys.' + ['ascending', 'descending', 'clustered-duplicates', 'permutation', 'uniform', 'uniform', 'uniform', 'uniform'][style])
     span = r.choice([6, 12, 40, 200, 1000]) if multi else r.choice([20, 60, 300, 2000])
     if mc >= 32:
         nops = nops * 3
     nxt = [0]
     def key():
+        if r.chance(1, 60): return r.choice([0, 1, 2147483646, 2147483647])           # extreme keys
         if style == 0: nxt[0] += 1; return 20000 + nxt[0]                       # ascending
         if style == 1: nxt[0] += 1; return 25000 - nxt[0]                # descending
         if style == 2: return 20000 + r.choice([3, 3, 3, 7, 7, 11, 50]) + r.below(2)   # clustered duplicates
@@ -86,7 +131,7 @@ def gen_history(r, cid, nops, modelled_only):
         elif t < 74: ops.append('x%d' % r.below(max(size[0], 1)) + ('' if r.chance(1, 2) else ':%d' % k))
         elif t < 79: ops.append('e%d:%d' % (r.below(max(size[0], 1)), k))
         elif t < 82: ops.append(r.choice(['y', 'Y', 'm']))
-        elif t < 84: ops.append('p%d:%d' % (r.range(2, 5), r.below(2)))
+        elif t < 84: ops.append(r.choice(['p%d:%d' % (r.range(2, 5), r.below(2)), 'p1:0', 'p3:5']))
         elif t < 85 and r.chance(1, 3): ops.append('c'); size[0] = 0
         elif t < 92: ops.append(probe(k))
         elif t < 96: ops.append('s')
@@ -103,18 +148,28 @@ def gen_history(r, cid, nops, modelled_only):
         if r.chance(1, 12):
             lo = r.below(size[0] + 2); ops.append('g%d:%d' % (lo, lo + r.choice([0, 1, 2, 3, r.below(size[0] + 2)])))
             if r.chance(1, 2): ops.append('s')
+        if r.chance(1, 10):
+            # exact boundary positions (negative = counted from the end): hint == end / begin, last item, empty ranges at
+            # both ends, everything, everything but one, Remove(iter, ExtractedItem&) + Add(iter, ExtractedItem&&), dropped extract
+            ops.append(r.choice(['a-1:%d' % k, 'a0:%d' % k, 'a-2:%d' % k, 'r-1', 'r0', 'r-2', 'g0:-1', 'g-1:-1', 'g0:0', 'g1:-1', 'g0:-2', 'g1:-2',
+                                 'x-1', 'x0', 'X-1', 'X0', 'X%d' % r.below(max(size[0], 1)), 'd-1', 'd0', 'd%d' % r.below(max(size[0], 1)),
+                                 'e-1:%d' % k, 'e0:%d' % k, 'q0', 'q2147483647', 'k%d' % k]))
+            if r.chance(1, 2): ops.append('s')
+        if r.chance(1, 150): ops.append('z')
         if not modelled_only:
             u = r.below(40)
             if u < 3: ops.append('g%d:%d' % (r.below(size[0] + 2), r.below(size[0] + 2)))
-            elif u < 9: ops.append('bi%d' % (k + (r.choice([0, 0, 10000, -10000]) if r.chance(1, 2) else 0)))
+            elif u < 9: ops.append('bi%d' % max(0, k + (r.choice([0, 0, 10000, -10000]) if r.chance(1, 2) else 0)))
             elif u < 10: ops.append('br%d' % r.below(50))
             elif u < 12: ops.append(r.choice(['u', 'v', 'bu', 'bv']))
             elif u < 13: ops.append('w')
             elif u < 14: ops += ['bt']
+            elif u < 16: ops.append(r.choice(['j', 'bj']))
+            elif u < 17: ops.append(r.choice(['z', 'bz']))
     ops += ['s', 't']
     if not modelled_only:
         ops += ['bt']
-    return head(cid) + ' ' + ' '.join(ops)
+    return line(cid, ops)
 
 def gen_merge_history(r, cid):
     """two sets built ordered / interleaved / overlapping, merged (fast concatenation path when ordered), then freed"""
@@ -140,7 +195,7 @@ def gen_merge_history(r, cid):
     fin = r.below(3)
     if fin == 0: ops += ['c', 'bc']
     elif fin == 1: ops += ['r0'] * (n1 + n2 + 12) + ['br0'] * (n1 + n2 + 12) + ['t', 'bt']
-    return head(cid) + ' ' + ' '.join(ops)
+    return line(cid, ops)
 
 def gen_separator_history(r, cid):
     """ascending build, drain the leftmost leaves completely (no merge possible while the right sibling is full), then
@@ -156,13 +211,13 @@ def gen_separator_history(r, cid):
     ops += ['t', 's']
     for _ in range(r.below(4)):
         ops += ['r%d' % r.below(3), 's']
-    return head(cid) + ' ' + ' '.join(ops + ['t'])
+    return line(cid, ops + ['t'])
 
 def gen_merge_modelled(r, cid):
     """two key sets - interleaved (generic / linear path), ordered either way (pvMergeFast, trees of equal and of
     different heights, full and non-full nodes on the joining edge), ordered with an equivalent boundary key, or one
     side empty (swap shortcut) - merged, then single-container traffic and possibly further merges"""
-    mc, st, bc, lin, multi, _, _ = CONFIGS[cid]
+    mc, st, bc, lin, multi = CONFIGS[cid][:5]
     kind = r.below(10)
     base = 20000
     sizes = [min(x, 150 if mc <= 8 else 560) for x in [0, 1, 2, 3, mc, mc + 1, 2 * mc + 1, 3 * mc + 2, (mc + 1) * (mc + 1), 40, 120]]
@@ -185,31 +240,95 @@ def gen_merge_modelled(r, cid):
         ops.append(r.choice(['i%d' % k, 'bi%d' % k, 'r%d' % r.below(60), 'br%d' % r.below(60), 'q%d' % k, 'bq%d' % k, 'w',
                              'u', 'bu', 'v', 'bv', 's', 'bs']))
     ops += ['t', 'bt', 's', 'bs']
-    return head(cid) + ' ' + ' '.join(ops)
+    return line(cid, ops)
+
+BIG255_QUICK = (26, 42, 47)     # quick tier: a continuous 255, an even-capacity 254 and an indexed copy-only 255 configuration split a FULL internal node
+def gen_big_history(r, cid, thorough, first=False):
+    """trees big enough to split INTERNAL nodes (and to fill a 255-entry node / index table to the last slot), to cross the
+    height thresholds more than once, then range removals across several levels, re-growth and a full drain"""
+    mc, st, bc, lin, multi = CONFIGS[cid][:5]
+    if mc <= 8: n = min(1500, r.choice([(mc + 1) ** 3, 2 * (mc + 1) ** 3 + 5]))
+    elif mc <= 64: n = r.choice([(mc + 1) * (mc + 1) + mc + 40, 2 * (mc + 1) * (mc + 1)])     # > (mc+1)*mc+mc forces an internal split
+    else: n = (mc + 1) * (mc + 1) + 500 if thorough else r.choice([mc + 1, 2 * mc + 2, 3 * mc + 40])
+    base = 100000
+    pat = r.below(5)
+    if mc >= 254 and (thorough or (first and cid in BIG255_QUICK)):
+        # 255 separators + 256 children in one internal node, then its split: needs > 128 * 256 items when leaves split in the middle
+        pat = r.below(2); n = 66000 if thorough else 34000
+    dist('big.' + ['ascending', 'descending', 'two-interleaved-passes', 'duplicate-blocks', 'three-strided-passes'][pat]); dist('big.items', n)
+    if pat == 0: ops = ['f%d:%d:1' % (n, base)]
+    elif pat == 1: ops = ['f%d:%d:-1' % (n, base + n)]
+    elif pat == 2: ops = ['f%d:%d:2' % (n // 2, base), 's', 'f%d:%d:2' % (n - n // 2, base + 1)]
+    elif pat == 3: ops = (['f%d:%d:0' % (n // 4, base + 5 * j) for j in range(4)] if multi else ['f%d:%d:1' % (n // 2, base), 'f%d:%d:1' % (n // 2, base + n // 4)])
+    else: ops = ['f%d:%d:3' % (n // 3, base + j) for j in (2, 0, 1)]
+    ops += ['s', 't', 'q%d' % (base - 1), 'q%d' % base, 'q%d' % (base + n // 2), 'q%d' % (base + 3 * n)]
+    for _ in range(r.range(2, 6)):
+        ops.append(r.choice(['r0', 'r-1', 'r%d' % r.below(n), 'X%d' % r.below(n), 'a-1:%d' % (base + 4 * n), 'a0:%d' % (base - 7), 'i%d' % (base + r.below(n))]))
+    ops += ['g%d:-%d' % (max(1, n // 10), max(2, n // 10)), 's', 't']            # range removal across all levels
+    ops += ['f%d:%d:1' % (n // 2, base + 5 * n), 's', 'g1:-2', 's', 't']         # re-growth, then everything but the two ends
+    ops += ['f%d:%d:-1' % (n // 3 + 3, base + 9 * n), 's']
+    if not thorough or mc <= 64:
+        ops += ['r0'] * r.range(mc + 2, 3 * mc + 8) + ['s'] + ['r-1'] * r.range(mc + 2, 3 * mc + 8) + ['s', 't']
+    ops += [r.choice(['c', 'z', 'g0:-1']), 's', 'i5', 't']
+    return line(cid, ops)
+
+def gen_destroy_history(r, cid):
+    """merge, REFILL THE SOURCE, destroy one of the two containers while the other one lives on (destination first or
+    source first), keep working with the survivor (allocations and frees go through the merged pools), merge again"""
+    mc, st, bc, lin, multi = CONFIGS[cid][:5]
+    base = 20000
+    na = r.choice([1, mc, mc + 1, 2 * mc + 2, 3 * mc + 3, (mc + 1) * (mc + 1) + 1 if mc <= 8 else 3 * mc]); nb = r.choice([1, mc + 1, 2 * mc + 2, 4 * mc + 4])
+    na = min(na, 600); nb = min(nb, 600)
+    kind = r.below(4)
+    dist('destroy.' + ['ordered a<b', 'ordered b<a', 'interleaved', 'equal boundary key'][kind])
+    if kind == 0: a = [base + 2 * j for j in range(na)]; b = [base + 5000 + 2 * j for j in range(nb)]
+    elif kind == 1: b = [base + 2 * j for j in range(nb)]; a = [base + 5000 + 2 * j for j in range(na)]
+    elif kind == 2: a = [base + 4 * j for j in range(na)]; b = [base + 4 * j + 2 for j in range(nb)]
+    else: a = [base + 2 * j for j in range(na)] + [base + 5000]; b = [base + 5000] + [base + 5000 + 2 * j for j in range(nb)]
+    ops = ['i%d' % k for k in a] + ['bi%d' % k for k in b]
+    m = r.choice(['u', 'v', 'bu', 'bv'])
+    dst, src = ('', 'b') if m in ('u', 'v') else ('b', '')
+    ops += ['s', 'bs', m, 's', 'bs']
+    ops += ['%si%d' % (src, base + 20000 + 3 * j) for j in range(r.range(1, 3 * mc + 3))]      # refill the source
+    first = r.choice([dst, src]); other = src if first == dst else dst
+    dist('destroy.destination-first' if first == dst else 'destroy.source-first')
+    ops += ['%ss' % src, '%sz' % first]
+    for j in range(r.range(mc + 2, 4 * mc + 6)):
+        ops.append(other + r.choice(['i%d' % (base + 1 + 2 * r.below(3000)), 'r0', 'r-1', 'r%d' % r.below(50), 'q%d' % (base + r.below(6000))]))
+    ops += ['%ss' % other, '%st' % other]
+    ops += ['%si%d' % (first, base + 40000 + j) for j in range(r.range(1, 2 * mc + 2))]          # the re-created container gets items
+    ops += [r.choice(['u', 'v', 'bu', 'bv']), 's', 'bs', 't', 'bt', r.choice(['z', 'bz']), 's', 'bs', r.choice(['i7', 'bi7']), 't', 'bt']
+    return line(cid, ops)
 
 def gen_cases(ctx, scale, modelled_only):
     r = ctx.rng
     cases = []
-    for cid in sorted(CONFIGS):
+    thorough = not ctx.quick()
+    for cid in active():
         mc = CONFIGS[cid][0]
         for _ in range((6 if mc <= 8 else 2) * scale):
             cases.append(gen_separator_history(r, cid))
-        n = (30 if mc <= 8 else 10) * scale
+        n = (24 if mc <= 8 else 8) * scale
         for _ in range(n):
             nops = r.choice([20, 40, 80, 160]) if mc <= 8 else r.choice([60, 120])
             cases.append(gen_history(r, cid, nops, modelled_only))
-        if modelled_only:
-            for _ in range((10 if mc <= 8 else 4) * scale):
+        for j in range(2 if mc <= 64 else 1):
+            cases.append(gen_big_history(r, cid, thorough and modelled_only, first=(j == 0 and modelled_only)))
+        if merge_modelled(cid) or not modelled_only:
+            for _ in range((4 if mc <= 8 else 2) * scale):
+                cases.append(gen_destroy_history(r, cid))
+        if modelled_only and merge_modelled(cid):
+            for _ in range((8 if mc <= 8 else 3) * scale):
                 cases.append(gen_merge_modelled(r, cid))
         if not modelled_only:
-            for _ in range(15 * scale):
+            for _ in range(12 * scale):
                 cases.append(gen_merge_history(r, cid))
     return cases
 
 def split_by_tu(cases):
     groups = {}
     for i, c in enumerate(cases):
-        groups.setdefault(int(c.split()[0]) // 8, []).append(i)
+        groups.setdefault(int(c.split(' ', 1)[0]) // PER_TU, []).append(i)
     return groups
 
 def run_exe(exe, inp_path, timeout):
@@ -226,7 +345,19 @@ def run_exe(exe, inp_path, timeout):
     elif rc != 0 and lines: lines.pop()          # an incomplete last line belongs to the crashed case
     return rc, lines, e.decode('utf8', 'replace')
 
-def run_impl(ctx, harn, cases, name):
+MEASURED = {}      # '#STAT' counters the harness measured on the real containers, summed over the run; '#STATMAX' maxima
+MEASURED_MAX = {}
+def absorb_stats(e):
+    rest = []
+    for ln in e.split('\n'):
+        if ln.startswith('#STAT '):
+            k, v = ln[6:].rsplit('\t', 1); MEASURED[k] = MEASURED.get(k, 0) + int(v)
+        elif ln.startswith('#STATMAX '):
+            k, v = ln[9:].rsplit('\t', 1); MEASURED_MAX[k] = max(MEASURED_MAX.get(k, 0), int(v))
+        else: rest.append(ln)
+    return '\n'.join(rest)
+
+def run_impl(ctx, harn, cases, name, measure=False):
     """run the real code: each case goes to the harness executable that holds its configuration.
     A crash (assert, segfault on poisoned freed memory, sanitizer report) is attributed to the case being run and the
     rest of the batch is re-run after it."""
@@ -237,7 +368,9 @@ def run_impl(ctx, harn, cases, name):
             rounds += 1
             path = os.path.join(ctx.build, '%s.tu%d.cases' % (name, tu))
             open(path, 'w').write('\n'.join(cases[i] for i in todo) + '\n')
-            rc, lines, e = run_exe(harn[tu], path, 150 if ctx.quick() else 900)
+            rc, lines, e = run_exe(harn[tu], path, 150 if ctx.quick() else 1500)
+            if measure: e = absorb_stats(e)
+            else: e = '\n'.join(l for l in e.split('\n') if not l.startswith('#STAT'))
             n = min(len(lines), len(todo))
             for j in range(n):
                 out[todo[j]] = lines[j]
@@ -307,16 +440,17 @@ def build_harness(ctx):
             sorted(glob.glob(os.path.join(ctx.repo, 'include', 'momo', '*.h')) + glob.glob(os.path.join(ctx.repo, 'include', 'momo', 'details', '*.h'))):
         h.update(f.encode()); h.update(open(f, 'rb').read())
     h.update(ctx.tier.encode())
+    if TUS != list(range(NTU)): h.update(repr(TUS).encode())
     stamp = h.hexdigest()
-    spath = os.path.join(ctx.build, 'harness.stamp')
     suffix = '' if ctx.quick() else '.san'
-    exes = {k: os.path.join(ctx.build, 'harness%d%s' % (k, suffix)) for k in range(NTU)}
+    spath = os.path.join(ctx.build, 'harness%s.stamp' % suffix)      # one stamp per tier: a thorough run does not invalidate the quick binaries
+    exes = {k: os.path.join(ctx.build, 'harness%d%s' % (k, suffix)) for k in TUS}
     if os.path.exists(spath) and open(spath).read() == stamp and all(os.path.exists(e) for e in exes.values()):
         ctx.stage('build-harness', True)
         return exes
     if os.path.exists(spath): os.remove(spath)
-    res = ctx.cxx_many([('harness.cpp', 'harness%d' % k, ['-DCFGSET=%d' % k]) for k in range(NTU)])
-    harn = {k: res.get('harness%d' % k) for k in range(NTU)}
+    res = ctx.cxx_many([('harness.cpp', 'harness%d' % k, ['-DCFGSET=%d' % k] + (['-g0'] if ctx.quick() else [])) for k in TUS], timeout=3000)
+    harn = {k: res.get('harness%d' % k) for k in TUS}
     if any(v is None for v in harn.values()):
         ctx.stage('build-harness', False, getattr(ctx, 'last_cxx_error', ''))
         return None
@@ -360,10 +494,22 @@ def run(ctx):
     harn = build_harness(ctx)
     if harn is None:
         return ctx.finish(rule=RULE)
+    # the INTENDED classes are really instantiated: static_asserts in harness.cpp (build fails otherwise) + printed back here
+    fcases = [head(cid) + ' @' for cid in active()]
+    if TUS != list(range(NTU)): ctx.coverage['restricted_to_translation_units'] = TUS
+    fout, ferr = run_impl(ctx, harn, fcases, 'facts')
+    facts = {}; fbad = []
+    for cid, o in zip(active(), fout):
+        got = dict(kv.split('=') for kv in o.lstrip('@').split() if '=' in kv)
+        facts[cid] = got
+        exp = expected_facts(cid)
+        if any(got.get(k) != v for k, v in exp.items()): fbad.append((cid, exp, got))
+    ctx.stage('config-facts', not fbad and not ferr, ferr + ('; '.join('cfg %d expected %s got %s' % x for x in fbad[:3])))
+    ctx.tie_obligations.append({'name': 'all %d configurations instantiate the intended node layout / crew / item category / traits (static_assert + printed facts)' % len(CONFIGS), 'ok': not fbad and not ferr})
     have_model = ctx.stages.get('prove', {}).get('ok') and ctx.extract()
     if have_model:
         cases = gen_cases(ctx, scale, True)
-        impl, err = run_impl(ctx, harn, cases, 'corr')
+        impl, err = run_impl(ctx, harn, cases, 'corr', measure=True)
         path = os.path.join(ctx.build, 'corr.model.cases'); open(path, 'w').write('\n'.join(cases) + '\n')
         rc, model, e2 = ctx.run_lines([ctx.model_exe], path, timeout=1500)
         mism = []
@@ -380,12 +526,12 @@ def run(ctx):
             d = first_diff(mism[0][1], mism[0][2], mism[0][3])
             det += 'first disagreement: %d cases; case %r op#%s impl=%r model=%r' % (len(mism), mism[0][1][:200], d and d[0], d and d[2][:120], d and d[3][:120])
         ctx.stage('corr:model-vs-treeset', ok, det)
-        ctx.tie_obligations.append({'name': 'extracted BTreeModel == real TreeSet/TreeMap on %d histories x 32 configurations (iterator indexes, bounds, traversals, shape)' % len(cases), 'ok': ok})
+        ctx.tie_obligations.append({'name': 'extracted BTreeModel == real TreeSet/TreeMap on %d histories x 48 configurations (iterator indexes, bounds, traversals, shape)' % len(cases), 'ok': ok})
         for (i, c, a, b) in mism[:2]:
             small = shrink(ctx, c, corr_fails(ctx, harn))
             out1, _ = run_impl(ctx, harn, [small], 'shrink')
             ctx.violation('model and implementation disagree', {'case': small, 'impl': out1[0][:2000], 'model': True, 'original_case': c[:3000],
-                          'cmd': 'echo "<case>" | build/C02/harness%d   and   | build/C02/model_driver' % (int(c.split()[0]) // 8)}, found_input=True)
+                          'cmd': 'echo "<case>" | build/C02/harness%d   and   | build/C02/model_driver' % (int(c.split()[0]) // PER_TU)}, found_input=True)
         ops_hist = {}
         for c in cases:
             for o in c.split()[6:]:
@@ -397,7 +543,7 @@ def run(ctx):
         ctx.log('a stage broke: searching the implementation for a failing input with the thorough generator')
         oscale = max(scale, 6)
     ocases = gen_cases(ctx, oscale, False)
-    oimpl, oerr = run_impl(ctx, harn, ocases, 'oracle')
+    oimpl, oerr = run_impl(ctx, harn, ocases, 'oracle', measure=True)
     ctx.evaluations += len(ocases)
     def viol(o):
         return [t for t in o.split(' ') if t.startswith('!') or t.startswith('<missing') or '?' in t]
@@ -409,7 +555,7 @@ def run(ctx):
         ctx.violation('the real container differs from the stable sorted reference sequence (or leaks / breaks its node structure): %s' %
                       [t for t in out1[0].split(' ') if t.startswith('!') or t.startswith('<')][:3],
                       {'case': small, 'impl_output': out1[0][:2000], 'original_case': c[:3000],
-                       'cmd': 'echo "<case>" | build/C02/harness%d' % (int(c.split()[0]) // 8)}, found_input=True)
+                       'cmd': 'echo "<case>" | build/C02/harness%d' % (int(c.split()[0]) // PER_TU)}, found_input=True)
     for c in (ocases[::max(1, len(ocases) // 5)])[:5]:
         ctx.add_sample(c[:400])
     ohist = {}
@@ -418,11 +564,40 @@ def run(ctx):
             key = o[:2] if o[0] == 'b' else o[0]
             ohist[key] = ohist.get(key, 0) + 1
     ctx.coverage['oracle_op_histogram'] = ohist
-    ctx.coverage['configurations'] = {str(k): dict(zip(('maxCapacity', 'capacityStep', 'blockCount', 'linear', 'multi', 'key', 'map'), v)) for k, v in CONFIGS.items()}
+    ctx.coverage['configurations'] = {str(k): dict(zip(('maxCapacity', 'capacityStep', 'blockCount', 'linear', 'multi', 'key', 'value', 'layout', 'crew', 'checkVersion', 'memManager', 'traits'), v),
+                                                 instantiated=facts.get(k)) for k, v in CONFIGS.items()}
+    # measured input distribution: what REALLY happened in this run (harness counters on the real containers) + generator families
+    per_cfg = {}
+    for k, v in list(MEASURED.items()) + list(MEASURED_MAX.items()):
+        if k.startswith('c') and '.' in k and k[1:k.index('.')].isdigit():
+            per_cfg.setdefault(k[1:k.index('.')], {})[k[k.index('.') + 1:]] = v
+    def tot(name): return sum(d.get(name, 0) for d in per_cfg.values())
+    def by(pred, name): return sum(per_cfg.get(str(c), {}).get(name, 0) for c in CONFIGS if pred(CONFIGS[c]))
+    ctx.coverage['input_distribution'] = {
+        'per_configuration': {k: per_cfg[k] for k in sorted(per_cfg, key=int)},
+        'ops_executed_on_real_code': {k[3:]: v for k, v in sorted(MEASURED.items()) if k.startswith('op.')},
+        'entry_points_and_boundaries': {k: v for k, v in sorted(MEASURED.items()) if not k.startswith('op.') and not k.startswith('c')},
+        'threshold_events_total': {n: tot(n) for n in ('leafSplit', 'internalNodesAdded', 'fullInternalNodeSplit', 'rootGrow', 'rootCollapse', 'nodesFreedByMerge', 'opsLeavingEmptyLeaf',
+                                                       'opsLeavingEmptyInternal', 'opsWithFullInternalNode', 'opsWithLeafAtMaxCapacityFull')},
+        'fullInternalNodeSplit_by_maxCapacity': {str(m): by(lambda c, m=m: c[0] == m, 'fullInternalNodeSplit') for m in sorted(set(c[0] for c in CONFIGS.values()))},
+        'ops_by_layout': {l: by(lambda c, l=l: c[7] == l, 'ops') for l in 'CI'},
+        'ops_by_crew': {l: by(lambda c, l=l: c[8] == l, 'ops') for l in ('ptr', 'inline')},
+        'ops_by_key_category': {l: by(lambda c, l=l: c[5] == l, 'ops') for l in KEYFACTS},
+        'ops_by_value_category': {l or 'set': by(lambda c, l=l: c[6] == l, 'ops') for l in ('', 'long', 'str', 'heap')},
+        'ops_by_memory_manager': {l: by(lambda c, l=l: c[10] == l, 'ops') for l in ('empty', 'stateful-equal', 'stateful-unequal')},
+        'ops_by_traits': {l: by(lambda c, l=l: c[11] == l, 'ops') for l in sorted(set(c[11] for c in CONFIGS.values()))},
+        'ops_by_search': {'linear': by(lambda c: c[3] == 1, 'ops'), 'binary': by(lambda c: c[3] == 0, 'ops')},
+        'ops_by_multi': {'unique': by(lambda c: c[4] == 0, 'ops'), 'multi': by(lambda c: c[4] == 1, 'ops')},
+        'generator_families': dict(sorted(DIST.items())),
+    }
     return ctx.finish(rule=RULE)
 
-RULE = ('cases = op histories (insert ascending/descending/clustered/random, hinted add with right and wrong hints, remove by '
-        'iterator/key/range/predicate, drain-a-subtree-then-remove-its-separator, extract+insert, ResetKey, copy/move/swap, '
-        'MergeFrom/MergeTo incl. the fast concatenation path, merge-then-free) over 32 configurations of TreeSet/TreeMap x unique/multi x '
-        'TreeNode<1..255, step 0/1/2/100, blockCount 1/8, continuous or indexed> x linear/binary search x int/std::string/heap-owning keys; '
-        'distinct = distinct history line; non-trivial = the history built a tree with at least one internal node (a split happened)')
+RULE = ('cases = op histories (insert ascending/descending/clustered/random incl. extreme keys, every Insert/Add entry point, hinted add with '
+        'right and wrong hints and hint == begin/end, Insert(begin,end)/Insert(initializer_list), remove by iterator/key/range/predicate '
+        'with exact boundary positions, drain-a-subtree-then-remove-its-separator, extract+insert / Remove(it,ext)+Add(it,ext) / dropped '
+        'extract, ResetKey, copy/move/swap, destroy-and-recreate, MergeFrom/MergeTo on every path incl. unequal managers, non-empty traits '
+        'and another container type, merge-refill-destroy, bulk fills that split full internal nodes up to 255 items) over 48 configurations '
+        'of TreeSet/TreeMap x unique/multi x TreeNode<1..255, step 0..255, blockCount 1/2/8/127, continuous or indexed> x linear/binary search '
+        'x int / std::string (SSO and heap) / throwing-move / copy-only / swap-shifted keys x long/string/copy-only values x pointer/inline crew '
+        'x empty/stateful memory managers x TreeTraits/TreeTraitsStd; distinct = distinct history line; non-trivial = the history built a tree '
+        'with at least one internal node (a split happened)')
